@@ -274,9 +274,9 @@ func haAddCrashes(r *kit.Rand, cs *haCase, k int, double bool) {
 // C01
 
 func haCasesC01(c *kit.Ctx) []*haCase {
-	n := c.N(44, 1200)
+	n := c.N(44, 5000)
 	if c.Lane == "race" {
-		n = c.N(24, 120) // race lane: a 10% subsample (the detector slows everything down ~5-10x)
+		n = c.N(24, 250) // race lane: a 10% subsample (the detector slows everything down ~5-10x)
 	}
 	var cases []*haCase
 	for i := 0; i < n; i++ {
@@ -319,10 +319,10 @@ func TestVerifHAC01(t *testing.T) {
 // C02
 
 func haCasesC02(c *kit.Ctx) []*haCase {
-	hits := c.N(3, 8)
-	scheds := c.N(4, 24)
+	hits := c.N(3, 10)
+	scheds := c.N(4, 40)
 	if c.Lane == "race" {
-		hits, scheds = c.N(1, 2), c.N(2, 4) // race lane: a subsample (the detector slows everything down ~5-10x)
+		hits, scheds = c.N(1, 3), c.N(2, 6) // race lane: a subsample (the detector slows everything down ~5-10x)
 	}
 	var cases []*haCase
 	i := 0
@@ -406,7 +406,7 @@ func TestVerifHAC02(t *testing.T) {
 // C03
 
 func haCasesC03(c *kit.Ctx) []*haCase {
-	n := c.N(36, 800)
+	n := c.N(36, 3000)
 	var cases []*haCase
 	for i := 0; i < n; i++ {
 		var cs *haCase
@@ -427,6 +427,19 @@ func haCasesC03(c *kit.Ctx) []*haCase {
 			cs.Net, cs.DelayMaxMs, cs.DropPm, cs.DupPm = "S1", []int{0, 30}[(i/12)%2], 0, 0
 			cs.QCrashPm = 0
 			cs.Crashes = []haCrashPlan{{Node: i % cs.Nodes, Hook: "quiescent", Nth: 1, FromRound: 1, DownMs: 100000000}}
+		case i%3 == 1:
+			// focused: so many honest nodes are down that honest + adversary weight stays below every threshold;
+			// only counting the equivocators' weight twice could produce a (bogus) quorum during the prefix
+			cs = haGenCase(c, 4, i, "safety")
+			cs.Nodes = []int{5, 7}[(i/6)%2]
+			cs.Stake = "equal"
+			cs.Adv, cs.AdvPct, cs.AdvAccts = "pairs", 20, 1+(i/6)%3
+			cs.Net, cs.DelayMaxMs, cs.DropPm, cs.DupPm = "S1", 0, 0, 0
+			cs.QCrashPm, cs.PrefixCapS, cs.PrefixRnds = 0, 40, 2
+			cs.Crashes = nil
+			for k := 0; k < cs.Nodes/2; k++ {
+				cs.Crashes = append(cs.Crashes, haCrashPlan{Node: (i + k) % cs.Nodes, Hook: "quiescent", Nth: 1, FromRound: 1, DownMs: 100000000})
+			}
 		default:
 			cs = haGenCase(c, 4, i, "safety")
 		}
@@ -468,7 +481,7 @@ func TestVerifHAC03(t *testing.T) {
 // C05
 
 func haCasesC05(c *kit.Ctx) []*haCase {
-	n := c.N(40, 1000)
+	n := c.N(40, 4000)
 	var cases []*haCase
 	for i := 0; i < n; i++ {
 		cs := haGenCase(c, 5, i, "progress")
@@ -485,8 +498,8 @@ func haCasesC05(c *kit.Ctx) []*haCase {
 // and within haC05T of virtual time. Constants fixed at >= 3x the worst values measured on the unchanged
 // tree over the thorough corpus (see the report / evidence counters max_tail_*).
 const (
-	haC05K = 12
-	haC05T = 100 * time.Minute
+	haC05K = 8
+	haC05T = 40 * time.Minute
 )
 
 func TestVerifHAC05(t *testing.T) {
